@@ -4,11 +4,11 @@ import json
 from engine.spec import Spec
 
 H = "\x00"  # hole marker inside argument skeletons
-_NAMES = [["a.m?", "?.md"], ["b.?d", "c?md"], ["?.MD", "a.md"], ["a?", "?b.md"]]
+_NAMES = [["a.m?", "?.md"], ["b.?d", "c?md"], ["?.MD", "a.md"], ["a?", "?b.md"], ["a[?].md", "a?.md"]]
 _ARGS = [
     ["/d"], ["/d/s"], ["/d", "/d/s"], ["/d/a.m" + H], ["/d/a.m" + H, "/d"], ["/d/" + H + ".md"], ["/d/*.m" + H, "/d/s"],
     ["/d/" + H, "/x"], ["/d/s/" + H + ".md", "/d/s/t"], ["/d/a.md", "/d/a.md", "/d"], ["/" + H], ["/d/s/e.txt"], ["/d/" + H + "*"],
-    ["/d/s/" + H, "/d/a.md"], ["/d/" + H + H],
+    ["/d/s/" + H, "/d/a.md"], ["/d/" + H + H], ["/d/a[" + H + "].md"], ["/d/a" + H + "1].md", "/d/s"],
 ]
 
 
@@ -19,18 +19,18 @@ class C19(Spec):
     rule_text = ("one symbolic path = one joint behaviour of ApplicationFileScanner.determine_files_to_scan (forward, reversed arguments, --list-files) and the reference model R-fs on a directory tree whose file names "
                  "and path arguments contain symbolic characters (any code point but '/' and NUL, so '.md', '.MD', '*', '?', dot-files all arise) and a symbolic --recurse Bool; "
                  "assertions: same error flag, same sorted duplicate-free list, argument order irrelevant, --list-files prints exactly the list; distinct = distinct (error flag, #files, recurse)")
-    stubs = ["FS-tree stub (checks/fs_model.py, checks/fs_sym.py): os.path.exists/isdir/isfile, os.walk (top-down) and glob.glob (fnmatch '*'/'?' per segment, leading-dot rule, wildcards in the last segment only, no character classes) "
+    stubs = ["FS-tree stub (checks/fs_model.py, checks/fs_sym.py): os.path.exists/isdir/isfile, os.walk (top-down) and glob.glob (fnmatch '*', '?' and '[seq]' classes per segment, leading-dot rule, wildcards in the last segment only) "
              "over an association list of (path, kind); validated on every replayed witness against the real os.walk/glob on a real tree"]
     cuts = ["logging statements removed after a syntactic purity screen"]
-    assumptions = ["tree shape is fixed (/d with two files whose names are symbolic, /d/s with c.md, e.txt, /d/s/t/g.md); names differ", "arguments that contain '[' or ']' together with '*' or '?' are skipped (glob character classes are outside the stub's contract); '[' / ']' in a path without '*' / '?' are covered: such a path is literal and must never reach glob"]
+    assumptions = ["tree shape is fixed (/d with two files whose names are symbolic, /d/s with c.md, e.txt, /d/s/t/g.md); names differ", "a path without '*' / '?' is literal even if it contains '[' (user guide); the reference model never globs it"]
     outside = ["the OS's own walk/glob beyond the stub contract, symlinks, permissions, case-insensitive file systems", "more than 3 path arguments, deeper trees"]
 
     def shards(self, tier):
         out = []
-        names_sets = _NAMES[:2] if tier == "quick" else _NAMES
+        names_sets = [_NAMES[0], _NAMES[1], _NAMES[4]] if tier == "quick" else _NAMES
         for ni, names in enumerate(names_sets):
             for ai, args in enumerate(_ARGS):
-                if tier == "quick" and ni == 1 and ai % 2:
+                if tier == "quick" and ((ni == 1 and ai % 2) or (ni == 2 and ai < len(_ARGS) - 4)):
                     continue
                 for exts in ((".md",) if tier == "quick" and ai % 3 else (".md", ".md,.txt")):
                     out.append({"harness": "fs", "params": {"prop": "C19", "names": names, "args": args, "exts": exts}, "per_path_timeout": 30.0, "budget_s": 300.0 if tier == "quick" else 900.0})
